@@ -32,9 +32,9 @@ ASSUMPTIONS = [
 
 def bounds(tier):
     if tier == "quick":
-        return {"n": [1, 2, 3], "envs": [1, 2], "gamma": [1.0, 0.5], "capacity": [3, 64],
-                "stream_len": {"E=1": "n+4", "E=2": 5}, "search": "BFS, closure where capacity=3"}
-    return {"n": [1, 2, 3, 4], "envs": [1, 2, 3], "gamma": [1.0, 0.5, 0.99], "capacity": [3, 4, 64],
+        return {"n": [1, 2, 3, 4, 5], "envs": [1, 2], "gamma": [1.0, 0.5], "capacity": [3, 64],
+                "stream_len": {"E=1": "n+4", "E=2": 5}, "search": "BFS, closure where capacity=3; n in {4,5} with one environment only"}
+    return {"n": [1, 2, 3, 4, 5], "envs": [1, 2, 3], "gamma": [1.0, 0.5, 0.99], "capacity": [3, 4, 64],
             "stream_len": {"E=1": "n+6", "E=2": 6, "E=3": 4}, "search": "BFS, closure where capacity<=4"}
 
 
@@ -43,6 +43,8 @@ def tasks(tier, seed):
     out = []
     for n in b["n"]:
         for E in b["envs"]:
+            if tier == "quick" and n >= 4 and E > 1:
+                continue
             for g in b["gamma"]:
                 for cap in b["capacity"]:
                     if tier == "quick":
